@@ -140,3 +140,91 @@ ROUND2_TWINS.append({"name": 'www-authenticate-getter-or', "edits": [(R, '      
 ROUND2_TWINS.append({"name": 'headerset-update-walrus-key', "edits": [(S, '            key = header.lower()\n            if key not in self._set:\n                self._headers.append(header)\n                self._set.add(key)\n                inserted_any = True', '            if (key := header.lower()) not in self._set:\n                self._set.add(key)\n                self._headers.append(header)\n                inserted_any = True')]})
 TWINS = TWINS + ROUND2_TWINS
 MUTANTS = MUTANTS + ROUND2_MUTANTS
+
+# ---------------------------------------------------------------------------------------------------------------------
+# detection round (blind seeds E-G): removal half of the HeaderSet pairing (R16.2), replacing write-backs and case-folded
+# name comparisons behind them (R16.8), falsy view = nothing to serialise (R16.9)
+HD = "datastructures/headers.py"
+_DELITEM = "        rv = self._headers.pop(idx)\n        self._set.remove(rv.lower())"
+_REMOVE_LOOP = "        for idx, item in enumerate(self._headers):\n            if item.lower() == key:\n                del self._headers[idx]\n                break"
+_SETITEM = "        old = self._headers[idx]\n        self._set.remove(old.lower())\n        self._headers[idx] = value\n        self._set.add(value.lower())"
+_CC_WRITE = 'self.headers["Cache-Control"] = cache_control.to_header()'
+
+def _derive3(twin_name, repl):
+    tw = next(t for t in ROUND3_TWINS if t["name"] == twin_name)
+    out = []
+    hit = 0
+    for rel, old, new in tw["edits"]:
+        for a, b in repl:
+            if a in new:
+                assert new.count(a) == 1, (twin_name, a)
+                new = new.replace(a, b)
+                hit += 1
+        out.append((rel, old, new))
+    assert hit == len(repl), (twin_name, hit)
+    return out
+
+
+ROUND3_TWINS = [
+    # --- R16.2 removal pairing
+    {"name": "delitem-read-del-discard", "edits": [(S, _DELITEM, "        rv = self._headers[idx]\n        del self._headers[idx]\n        self._set.discard(rv.lower())")]},
+    {"name": "delitem-set-first", "edits": [(S, _DELITEM, "        self._set.remove(self._headers[idx].lower())\n        del self._headers[idx]")]},
+    {"name": "remove-filter-rebuild", "edits": [(S, _REMOVE_LOOP, "        self._headers = [h for h in self._headers if h.lower() != key]")]},
+    {"name": "remove-next-search", "edits": [(S, _REMOVE_LOOP, "        found = next(h for h in self._headers if h.lower() == key)\n        self._headers.remove(found)")]},
+    {"name": "remove-plain-loop-list-remove", "edits": [(S, _REMOVE_LOOP, "        for item in self._headers:\n            if key == item.lower():\n                self._headers.remove(item)\n                break")]},
+    {"name": "setitem-key-through-local", "edits": [(S, _SETITEM, "        dropped = self._headers[idx].lower()\n        self._headers[idx] = value\n        self._set.discard(dropped)\n        self._set.add(value.lower())")]},
+    # --- R16.8
+    {"name": "headers-set-remaining-filter-loop", "edits": [(HD, "        self._list[idx + 1 :] = [t for t in iter_list if t[0].lower() != ikey]", "        rest = []\n        for item in iter_list:\n            if item[0].lower() == ikey:\n                continue\n            rest.append(item)\n        self._list[idx + 1 :] = rest")]},
+    {"name": "headers-set-folded-name-local", "edits": [(HD, "            if old_key.lower() == ikey:", "            folded = old_key.lower()\n            if ikey == folded:")]},
+    {"name": "headers-del-key-comprehension", "edits": [(HD, "        key = key.lower()\n        new = []\n\n        for k, v in self._list:\n            if k.lower() != key:\n                new.append((k, v))\n\n        self._list[:] = new", "        wanted = key.lower()\n        self._list[:] = [(k, v) for k, v in self._list if not k.lower() == wanted]")]},
+    {"name": "cache-control-callback-calls-set", "edits": [(R, _CC_WRITE, 'self.headers.set("Cache-Control", cache_control.to_header())')]},
+    # --- R16.9
+    {"name": "content-range-bool-if-return", "edits": [(RG, "    def __bool__(self) -> bool:\n        return self._units is not None", "    def __bool__(self) -> bool:\n        if self._units is None:\n            return False\n        return True")]},
+    {"name": "headerset-bool-len-positive-genexp-header", "edits": [
+        (S, "    def __bool__(self) -> bool:\n        return bool(self._set)", "    def __bool__(self) -> bool:\n        return len(self._set) > 0"),
+        (S, '        return ", ".join(map(http.quote_header_value, self._headers))', '        return ", ".join(http.quote_header_value(x) for x in self._headers)'),
+    ]},
+    {"name": "headerset-bool-of-list", "edits": [(S, "    def __bool__(self) -> bool:\n        return bool(self._set)", "    def __bool__(self) -> bool:\n        return bool(self._headers)")]},
+    {"name": "wwwauth-iter-without-len", "edits": [(A, "    def __contains__(self, key: str) -> bool:\n        return key in self.parameters\n\n    def __eq__(self, other: object) -> bool:\n        if not isinstance(other, WWWAuthenticate):", "    def __contains__(self, key: str) -> bool:\n        return key in self.parameters\n\n    def __iter__(self) -> t.Iterator[str]:\n        return iter(self.parameters)\n\n    def __eq__(self, other: object) -> bool:\n        if not isinstance(other, WWWAuthenticate):")]},
+    {"name": "content-range-to-header-not-self", "edits": [(RG, '        if self._units is None:\n            return ""', '        if not self:\n            return ""')]},
+]
+_WA_ANCHOR = "    def __eq__(self, other: object) -> bool:\n        if not isinstance(other, WWWAuthenticate):"
+ROUND3_MUTANTS = [
+    # --- R16.2 removal pairing
+    {"name": "setitem-drops-the-new-key", "expect": "R16.2", "edits": [(S, "        old = self._headers[idx]\n        self._set.remove(old.lower())", "        old = self._headers[idx]\n        self._set.discard(value.lower())")]},
+    {"name": "remove-drops-raw-header", "expect": "R16.2", "edits": [(S, "        self._set.remove(key)\n        for idx, item in enumerate(self._headers):", "        self._set.discard(header)\n        for idx, item in enumerate(self._headers):")]},
+    {"name": "delitem-forgets-the-set", "expect": "R16.2", "edits": [(S, _DELITEM, "        self._headers.pop(idx)")]},
+    {"name": "delitem-upper-cased-key", "expect": "R16.2", "edits": [(S, _DELITEM, "        rv = self._headers.pop(idx)\n        self._set.discard(rv.upper())")]},
+    {"name": "clear-keeps-the-keys", "expect": "R16.2", "edits": [(S, "        self._set.clear()\n        self._headers.clear()", "        self._headers.clear()")]},
+    {"name": "setitem-reads-old-after-store", "expect": "R16.2", "edits": [(S, _SETITEM, "        self._headers[idx] = value\n        old = self._headers[idx]\n        self._set.remove(old.lower())\n        self._set.add(value.lower())")]},
+    {"name": "shape:read-del-discard-title-cased", "expect": "R16.2", "edits": [(S, _DELITEM, "        rv = self._headers[idx]\n        del self._headers[idx]\n        self._set.discard(rv.title())")]},
+    {"name": "shape:filter-rebuild-on-raw-header", "expect": "R16.2", "edits": [(S, _REMOVE_LOOP, "        self._headers = [h for h in self._headers if h.lower() != header]")]},
+    {"name": "shape:next-search-for-another-key", "expect": "R16.2", "edits": [(S, _REMOVE_LOOP, "        found = next(h for h in self._headers if h == header)\n        self._headers.remove(found)")]},
+    # --- R16.8
+    {"name": "headers-set-first-match-raw-name", "expect": "R16.8", "edits": [(HD, "            if old_key.lower() == ikey:", "            if old_key == ikey:")]},
+    {"name": "headers-set-remaining-filter-raw-key", "expect": "R16.8", "edits": [(HD, "if t[0].lower() != ikey]", "if t[0].lower() != key]")]},
+    {"name": "headers-del-key-key-not-folded", "expect": "R16.8", "edits": [(HD, "        key = key.lower()\n        new = []", "        new = []")]},
+    {"name": "headers-get-key-raw-name", "expect": "R16.8", "edits": [(HD, "        for k, v in self._list:\n            if k.lower() == ikey:\n                return v", "        for k, v in self._list:\n            if k == ikey:\n                return v")]},
+    {"name": "cache-control-callback-adds-a-line", "expect": "R16.8", "edits": [(R, _CC_WRITE, 'self.headers.add("Cache-Control", cache_control.to_header())')]},
+    {"name": "set-property-callback-setdefault", "expect": "R16.8", "edits": [(R, "                self.headers[name] = header_set.to_header()", "                self.headers.setdefault(name, header_set.to_header())")]},
+    {"name": "www-authenticate-setter-adds", "expect": "R16.8", "edits": [(R, '            self.headers.set("WWW-Authenticate", value.to_header())\n\n            def on_update', '            self.headers.add("WWW-Authenticate", value.to_header())\n\n            def on_update')]},
+    {"name": "shape:remaining-filter-loop-raw-name", "expect": "R16.8", "edits": [(HD, "        self._list[idx + 1 :] = [t for t in iter_list if t[0].lower() != ikey]", "        rest = []\n        for item in iter_list:\n            if item[0] == ikey:\n                continue\n            rest.append(item)\n        self._list[idx + 1 :] = rest")]},
+    # --- R16.9
+    {"name": "wwwauth-bool-of-parameters", "expect": "R16.9", "edits": [(A, _WA_ANCHOR, "    def __bool__(self) -> bool:\n        return bool(self.parameters)\n\n" + _WA_ANCHOR)]},
+    {"name": "wwwauth-len-of-private-dict", "expect": "R16.9", "edits": [(A, _WA_ANCHOR, "    def __len__(self) -> int:\n        return len(self._parameters)\n\n" + _WA_ANCHOR)]},
+    {"name": "wwwauth-bool-token-or-parameters", "expect": "R16.9", "edits": [(A, _WA_ANCHOR, "    def __bool__(self) -> bool:\n        return self._token is not None or len(self._parameters) > 0\n\n" + _WA_ANCHOR)]},
+    {"name": "content-range-bool-on-start", "expect": "R16.9", "edits": [(RG, "    def __bool__(self) -> bool:\n        return self._units is not None", "    def __bool__(self) -> bool:\n        return self._start is not None")]},
+    {"name": "headerset-bool-needs-two-items", "expect": "R16.9", "edits": [(S, "    def __bool__(self) -> bool:\n        return bool(self._set)", "    def __bool__(self) -> bool:\n        return len(self._headers) > 1")]},
+]
+ROUND3_TWINS += [
+    {"name": "clear-rebinds-both", "edits": [(S, "        self._set.clear()\n        self._headers.clear()", "        self._headers = []\n        self._set = set()")]},
+    {"name": "delitem-drop-key-helper", "edits": [(S, _DELITEM + "\n", "        self._drop_key(self._headers.pop(idx))\n"), (S, "    def __getitem__(self, idx: t.SupportsIndex) -> str:", "    def _drop_key(self, item: str) -> None:\n        self._set.discard(item.lower())\n\n    def __getitem__(self, idx: t.SupportsIndex) -> str:")]},
+    {"name": "headerset-bool-len-of-self", "edits": [(S, "    def __bool__(self) -> bool:\n        return bool(self._set)", "    def __bool__(self) -> bool:\n        return len(self) != 0")]},
+    {"name": "set-property-callback-unannotated", "edits": [(R, "        def on_update(header_set: HeaderSet) -> None:", "        def on_update(header_set):  # type: ignore[no-untyped-def]")]},
+]
+ROUND3_MUTANTS += [
+    {"name": "shape:drop-key-helper-raw", "expect": "R16.2", "edits": _derive3("delitem-drop-key-helper", [("self._set.discard(item.lower())", "self._set.discard(item)")])},
+    {"name": "shape:rebinding-clear-forgets-set", "expect": "R16.2", "edits": _derive3("clear-rebinds-both", [("        self._headers = []\n        self._set = set()", "        self._headers = []")])},
+]
+TWINS = TWINS + ROUND3_TWINS
+MUTANTS = MUTANTS + ROUND3_MUTANTS
